@@ -3,8 +3,8 @@
 (* tket circuits (C13).  A tket circuit is                                 *)
 (*   [nq, nb, cmds |-> <<[op, ph, qs, bs], ...>>, postsel |-> <<[b, v]>>,  *)
 (*    sc |-> [re, im, s], post |-> mixed circuit on bits (CQ.tla)]         *)
-(* op in {"H","X","Y","Z","S","T","CX","CZ","SWAP","Rx","Rz","CRz",       *)
-(* "Measure"}; ph: the rotation angle in eighths of a full turn (tket's    *)
+(* op in {"H","X","Y","Z","S","T","Sdg","Tdg","CX","CZ","SWAP","Rx","Rz",  *)
+(* "CRz","Measure"}; ph: the rotation angle in eighths of a full turn (tket's    *)
 (* half-turn parameter times 4); qs, bs: qubit / bit register indices.     *)
 (* TkSem: exact evolution from |0..0> and bits 0..0.  Mid-circuit           *)
 (* measurements split a branch [bits, vec] into two (pure unnormalised     *)
@@ -14,6 +14,9 @@
 (***************************************************************************)
 EXTENDS CQ
 TG(op, ph) == [k |-> op, ph |-> ph, bits |-> <<>>, dg |-> 0, sub |-> "", subdg |-> 0, re |-> 0, im |-> 0, s |-> 0]
+\* tket's adjoint gates Sdg, Tdg: the named gate with the dagger flag
+TkGate(op, ph) == IF op = "Sdg" THEN [TG("S", ph) EXCEPT !.dg = 1]
+                  ELSE IF op = "Tdg" THEN [TG("T", ph) EXCEPT !.dg = 1] ELSE TG(op, ph)
 Vec0(nq) == T(<<>>, Q(nq), LAMBDA r, cc : IF cc = 0 THEN ROne ELSE RZero)
 Apply1(v, nq, GG, q) == MatThen(v, Whisker(Q(q), GG, Q(nq - q - 1)))
 Apply2(v, nq, GG, a, b) == MatThen(v, RewireT(GG, a, b, nq))
@@ -26,7 +29,7 @@ StepCmd(brs, nq, cmd) ==
          split(br) == << [bits |-> [br.bits EXCEPT ![b + 1] = 0], vec |-> Proj(br.vec, nq, q, 0)],
                          [bits |-> [br.bits EXCEPT ![b + 1] = 1], vec |-> Proj(br.vec, nq, q, 1)] >> IN
      [k \in 1..(2 * Len(brs)) |-> split(brs[(k + 1) \div 2])[2 - (k % 2)]]
-  ELSE LET GG == GateT(TG(cmd.op, cmd.ph)) IN
+  ELSE LET GG == GateT(TkGate(cmd.op, cmd.ph)) IN
      [k \in 1..Len(brs) |-> [brs[k] EXCEPT !.vec = IF Len(cmd.qs) = 1 THEN Apply1(brs[k].vec, nq, GG, cmd.qs[1])
                                                          ELSE Apply2(brs[k].vec, nq, GG, cmd.qs[1], cmd.qs[2])]]
 RECURSIVE RunCmds(_, _, _, _)
@@ -56,7 +59,7 @@ Post(tk) ==
 (***************************************************************************)
 (* Generator: circuits over the exportable gate set.                       *)
 (***************************************************************************)
-TkMenu == { PG(k, 0, 0) : k \in {"H", "X", "Y", "S", "T", "CX", "CZ"} } \cup { PG("Rz", 1, 0), PG("Rx", 3, 0), PG("CRz", 1, 0), PG("S", 0, 1) }
+TkMenu == { PG(k, 0, 0) : k \in {"H", "X", "Y", "S", "T", "CX", "CZ"} } \cup { PG("Rz", 1, 0), PG("Rx", 3, 0), PG("CRz", 1, 0), PG("S", 0, 1), PG("T", 0, 1) }
           \cup { PKB("Ket", <<0>>), PKB("Ket", <<1>>), PKB("Ket", <<1, 0>>), PKB("Bra", <<0>>), PKB("Bra", <<1>>) }
           \cup { MG("Measure", 1, 1, 0, <<>>, <<>>), MG("Measure", 1, 0, 0, <<>>, <<>>), MG("Measure", 1, 1, 1, <<>>, <<>>),
                  MG("Measure", 1, 0, 1, <<>>, <<>>) }
